@@ -1,6 +1,6 @@
 (* Entry points of the extracted model: one number per model function. *)
 From Coq Require Import ZArith List.
-From Tdda Require Import Base.Sexp RefTest.Argv RefTest.Tagged Serial.DateFmt RefTest.CheckStrings RefTest.Artefacts RefTest.Regen Constraints.Model Constraints.Detect Constraints.Serialise Constraints.Cli Rexpy.Coverage Rexpy.Wire.
+From Tdda Require Import Base.Sexp RefTest.Argv RefTest.Tagged Serial.DateFmt RefTest.CheckStrings RefTest.Artefacts RefTest.Regen Constraints.Model Constraints.Detect Constraints.Serialise Constraints.Cli Rexpy.Coverage Rexpy.Wire Rexpy.Prng.
 Import ListNotations.
 Open Scope Z_scope.
 
@@ -27,5 +27,6 @@ Definition dispatch (n : Z) (s : sexp) : sexp :=
   | 19 => catre_entry s
   | 20 => escape_entry s
   | 21 => batch_entry s
+  | 22 => prng_entry s
   | _ => L [A (-1)]
   end.
